@@ -400,6 +400,16 @@ def decode {α : Type} (L : Layouts) (dc : DataCoder α) (o : DecOpts) (bytes : 
       .ok { sections := out.sections, data := out.data, nbits := out.nbits,
             serialized := s.take (out.nbits / 8) }
 
+/-- `Decoder.process(s, start_signature=None)`: no search, the message starts at the first byte
+    (what `generate_bufr_message` calls at every signature it finds) -/
+def decodeAt {α : Type} (L : Layouts) (dc : DataCoder α) (o : DecOpts) (s : List UInt8) :
+    Except Err (DecMsg α) :=
+  match decodeBits L dc o (bytesToBits s) with
+  | .error e => .error e
+  | .ok (out, _) =>
+    .ok { sections := out.sections, data := out.data, nbits := out.nbits,
+          serialized := s.take (out.nbits / 8) }
+
 /-- the trivial data coder of the driver: the data are the next `n` bits, uninterpreted -/
 def rawCoder (n : Nat) : DataCoder Bits := { dec := fun _ => readBits n }
 
